@@ -1,9 +1,10 @@
 #!/usr/bin/env python3
 """Harness for C11 (conversion with an inline/crossline window).
 
-For generated regular SEG-Y cubes (non-unit, negative-start line numbering; IEEE and IBM samples; one file with an
-extended textual header, whose reduced-I/O self-test fails), every window 0 <= min < max <= n on both axes (exhaustive on
-the small cubes, boundary + seeded random on the larger ones) x reduce_iops on/off x the four header-detection modes:
+For generated regular SEG-Y cubes (non-unit, negative-start line numbering; one of more than 128 traces whose line NUMBERS
+start at 0, so that file and window differ in the 512-byte padding class of a stored header array; IEEE and IBM samples; one
+file with an extended textual header, whose reduced-I/O self-test fails), every window 0 <= min < max <= n on both axes (exhaustive on
+the small cubes, boundary + trace counts around every multiple of 128 + seeded random on the larger ones) x reduce_iops on/off x the four header-detection modes:
 
   oracle (never uses the model):
     * the windowed SGZ must be byte-identical to the SGZ converted, without a window, from a SEG-Y that contains only
@@ -33,7 +34,8 @@ if os.environ.get('VERIF_COQ'):          # development only: a private build dir
 FINDING = 'D6-heuristic-detection-from-source-corners'
 R = Result('one case = (cube, window, reduce_iops, header-detection mode); non-trivial = distinct case whose window is a '
            'proper sub-cube or starts at ordinal 0 or uses the reduced-I/O reader; cubes cover n mod 4 / mod 8 on both axes, '
-           'windows are all 0 <= min < max <= n on the small cubes and boundary + seeded random ones on the larger')
+           'windows are all 0 <= min < max <= n on the small cubes and boundary + seeded random ones on the larger; one cube has '
+           'line numbers starting at 0 and more than 128 traces (windows on both sides of the 128-trace footer padding)')
 rng = random.Random(a.seed * 104729 + 11)
 d = scratch_dir()
 TF = segyio.TraceField
@@ -144,10 +146,16 @@ cubes = [Cube('c45', 4, 5, 6, 10, 3, 100, 2, bpv=8),
          Cube('c38i', 3, 8, 5, 1, 1, 20, 5, fmt=1, bpv=4),
          Cube('c56x', 5, 6, 7, 10, 2, 7, 3, ext_text=1, bpv=8),
          Cube('c96b', 9, 6, 5, 2, 4, 300, 10, bpv=4, blockshape=(8, 8, -1)),
-         Cube('c22', 2, 2, 4, 5, 5, 6, 6, bpv=8)]
+         Cube('c22', 2, 2, 4, 5, 5, 6, 6, bpv=8),
+         # inline/crossline NUMBERS starting at 0 (the value an unpopulated header word has: the converter tests the first
+         # inline number against 0 when it sizes the header arrays) in a file of more than 128 traces: a stored header array
+         # occupies ceil(4 * traces / 512) * 512 bytes, so a proper window (<= 128 traces) and the file fall in different
+         # footer-padding classes and arrays sized or strided by the file instead of the window cannot go unnoticed
+         Cube('z1311', 13, 11, 4, 0, 1, 0, 2, bpv=8)]
 if a.tier != 'quick':
     cubes += [Cube('t86', 8, 6, 9, 100, 10, 50, 1, bpv=2), Cube('t1317', 13, 17, 5, 3, 2, 9, 4, bpv=8),
-              Cube('t512', 5, 12, 8, 0, 1, 0, 1, fmt=1, bpv=16, blockshape=(4, 8, -1))]
+              Cube('t512', 5, 12, 8, 0, 1, 0, 1, fmt=1, bpv=16, blockshape=(4, 8, -1)),
+              Cube('z2015', 20, 15, 5, 0, 2, -8, 4, bpv=4)]
 
 
 def all_windows(n_il, n_xl):
@@ -159,16 +167,22 @@ def pick_windows(c):
     ws = all_windows(c.n_il, c.n_xl)
     if a.tier == 'quick':
         full = {'c45': None, 'c22': None}
-        budget = {'c79': 22, 'c38i': 14, 'c56x': 12, 'c96b': 14}
+        budget = {'c79': 22, 'c38i': 14, 'c56x': 12, 'c96b': 14, 'z1311': 16}
     else:
         full = {'c45': None, 'c22': None, 'c38i': None, 'c56x': None}
-        budget = {'c79': 120, 'c96b': 80, 't86': 80, 't1317': 60, 't512': 60}
+        budget = {'c79': 120, 'c96b': 80, 't86': 80, 't1317': 60, 't512': 60, 'z1311': 40, 'z2015': 40}
     if c.name in full:
         return ws
     n = budget[c.name]
     ni, nx = c.n_il, c.n_xl
     must = [(0, ni, 0, nx), (0, 1, 0, 1), (ni - 1, ni, nx - 1, nx), (0, ni - 1, 0, nx - 1), (1, ni, 1, nx), (0, 4, 0, 4),
             (1, 5, 2, 7), (0, ni, 1, nx - 1), (1, ni - 1, 0, nx), (0, 3, 0, 4), (2, 5, 1, 5)]
+    # footer residue classes (one stored header array is padded to 512 bytes = 128 traces): for every multiple of 128 below
+    # the file's trace count, the largest window not above it and the smallest window above it
+    cnt = lambda w: (w[1] - w[0]) * (w[3] - w[2])
+    for k in range(1, (ni * nx - 1) // 128 + 1):
+        must.append(max((w for w in ws if cnt(w) <= 128 * k), key=cnt))
+        must.append(min((w for w in ws if cnt(w) > 128 * k), key=cnt))
     must = [w for w in must if w in set(ws)]
     rest = [w for w in ws if w not in set(must)]
     rng.shuffle(rest)
